@@ -12,3 +12,16 @@ package alonzo
 //@   ensures lower: err == nil ==> start == 0 || slot >= start
 //@   ensures upper: err == nil ==> ttl == 0 || slot < ttl
 //@   cover accepts: err == nil && start != 0 && ttl != 0
+
+// C32: collateral balance * 100 >= fee * collateral percentage, exactly (literal 100 from the property).
+//@ func UtxoValidateInsufficientCollateral(tx, slot, ls, pp) (err)
+//@   props C32
+//@   let ins = tx.Collateral()
+//@   let atx = unbox(tx, type(*AlonzoTransaction))
+//@   let app = unbox(pp, type(*AlonzoProtocolParameters))
+//@   let typed = dyn(tx) == type(*AlonzoTransaction) && dyn(pp) == type(*AlonzoProtocolParameters)
+//@   let bal = common.collSum(ins, ls, len(ins))
+//@   ensures types: !typed ==> err != nil
+//@   ensures exact: typed && err == nil && len(atx.WitnessSet.WsRedeemers.Redeemers) != 0 ==> bal * 100 >= N(atx.Body.TxFee) * N(app.CollateralPercentage)
+//@   cover accepts: typed && err == nil && len(atx.WitnessSet.WsRedeemers.Redeemers) != 0 && len(ins) > 0
+//@   loop 0 invariant rangeindex < len(ins) && val(totalCollateral) == common.collSum(ins, ls, rangeindex + 1)
